@@ -279,7 +279,11 @@ def run_mask(case, ctx, g):
     key = 'apply_mask/%s' % ('M=1' if Mrows == 1 else 'M>1')
     what = 'apply_mask N=%s R=%s rows=%d %s' % (N, case['R'], Mrows, case['dtype'])
     ref = dx[tuple(I[:, k] for k in range(d))]
-    out = ctx.lib('apply_mask', lambda t, i: t.apply_mask(i), x, I)
+    # index matrices as int64 (default), int32, or a non-contiguous view (a column-permuted copy read back through a transpose)
+    ik = case['seed'] % 3
+    Iarg = I.to(torch.int32) if ik == 1 else (I.t().contiguous().t() if ik == 2 else I)
+    ctx.count('apply_mask/index-kind:%s' % ['int64', 'int32', 'int64-noncontiguous'][ik])
+    out = ctx.lib('apply_mask', lambda t, i: t.apply_mask(i), x, Iarg)
     if isinstance(out, Raised):
         ctx.viol(key + '/clause=raises:%s@%s' % (out.type, out.func), '%s raised %r' % (what, out))
         return
